@@ -22,7 +22,7 @@ RULE = (
     "through Cluster.deserialize(...).get_status_summary(include_jobs=True); non-trivial = >= 3 distinct snapshots "
     "including a cancellation (submitter-level or user) or an unblocking over >= 2 rounds; distinct by hash of the case"
 )
-RULE += " Later additions (DESIGN.md 9): " + 'one operator command bound to the end of a batch and held back between two lock holds.'
+RULE += " Later additions (DESIGN.md 9): " + 'one operator command bound to the end of a batch and held back between two lock holds; 3/7 of the submissions use multi-node batches (#SBATCH --nodes=2/3: run-jobs and try-submit-jobs on every node, results recorded by node 0).'
 ASSUMPTIONS = C.WORLD_ASSUMPTIONS + [
     "observation granularity is the property's own: after every cluster-lock release (file_yields off); "
     "Cluster.prepare_for_resubmission writes its two files without the lock by design and is treated as the epoch boundary",
